@@ -478,7 +478,7 @@ func TestVX_C20(t *testing.T) {
 					run := 6500
 					if sc == "nopwm-parallel" || sc == "window0" {
 						// the fans without PWM read-back start together with everything else; a short run is enough
-						if pi != 0 || ai != mi {
+						if pi != 0 {
 							continue
 						}
 					}
